@@ -75,14 +75,18 @@ def hexNat? : Str → Nat → Option Nat
     | some v => hexNat? cs (acc * 16 + v)
     | none => none
 
+/-- optional sign of `strconv.ParseInt`: (negative?, rest) -/
+def splitSign : Str → Bool × Str
+  | '+' :: r => (false, r)
+  | '-' :: r => (true, r)
+  | r => (false, r)
+
 /-- `strconv.ParseInt(s, 16, 0)` on a 64-bit platform (no base prefix, no underscores because the
 base is explicit; optional sign; at least one digit; range error outside int64), followed by
 `time.Unix(v, 0)`: the result is the number of whole seconds. -/
 def parseHexTimestamp (s : Str) : Option Int :=
-  let (neg, ds) := match s with
-    | '+' :: r => (false, r)
-    | '-' :: r => (true, r)
-    | r => (false, r)
+  let neg := (splitSign s).1
+  let ds := (splitSign s).2
   if ds.isEmpty then none else
   match hexNat? ds 0 with
   | none => none
@@ -152,16 +156,18 @@ def parseSigField : Str → Option (Str × Str)
     then some (r.take 40, r.drop 41) else none
   | _ => none
 
+/-- `(\+[0-9]+)?` directly after the hash -/
+def dropSizeField : List Str → List Str
+  | f :: r => if isSizeField f then r else f :: r
+  | [] => []
+
 /-- `SignedLocatorRe.FindStringSubmatch`: groups 1 (hash), 6 (signature), 7 (expiry) -/
 def matchSigned (s : Str) : Option (Str × Str × Str) :=
   match splitOn '+' s with
   | [] => none
   | h :: fs =>
     if h.length = 32 && h.all isXDigit then
-      let fs1 := match fs with
-        | f :: r => if isSizeField f then r else fs
-        | [] => []
-      match fs1.dropWhile isOtherHint with
+      match (dropSizeField fs).dropWhile isOtherHint with
       | [] => none
       | f :: r =>
         match parseSigField f with
